@@ -11,7 +11,9 @@
 (*   Alias(n, m)      git tag n m   (m annotated: n and m SHARE one tag    *)
 (*                    object: major <- full, or an alias <- major)         *)
 (*   Branch(n, w)     a branch / remote-tracking ref NAMED LIKE A TAG (v3)  *)
-(*   Touch(d)         make the work tree dirty in way d                    *)
+(*   Touch(d)         put the work tree into state d (TaggerWorktree.tla:  *)
+(*                    content / mode-only / deletion / rename / untracked  *)
+(*                    / ignored / symlink / type change / combinations)    *)
 (*   Bump(v)          write another VERSION into mockery-tools.env (kept   *)
 (*                    outside the work tree); only in the simulated long   *)
 (*                    histories                                            *)
@@ -31,7 +33,9 @@ EXTENDS TaggerContract, Sequences, TLC, Json
 
 CONSTANTS TagNames,     \* names the maintainer may create
           Kinds,        \* {"light", "annotated"}
-          DirtyKinds,   \* Touch variants
+          DirtyKinds,   \* Touch variants: work-tree states of TaggerWorktree.tla
+          DeepDirtyKinds, \* the Touch variants that may come at any point of a history; the others only as its FIRST step
+                        \*   (every state still meets every flag, request and one further maintainer action)
           Requests,     \* VERSION strings a behaviour may start with (the input)
           Flags,        \* {"absent", "true", "false"}
           BumpTo,       \* VERSION strings the maintainer may switch to between invocations ({} = never)
@@ -72,6 +76,10 @@ Init == /\ tags = << >>
 \* the maintainer (or a new invocation) acts only between invocations and while the history bound allows
 Idle == pc = "idle" /\ Len(hist) < MaxHist
 
+\* after a work-tree state outside DeepDirtyKinds a history continues only with an invocation, a lightweight user
+\* tag (so that stale and newer requests both meet the state) or a commit (bounds the breadth-first search)
+Deep == dirty = "clean" \/ dirty \in DeepDirtyKinds
+
 Extend(f, k, v) == [x \in DOMAIN f \cup {k} |-> IF x = k THEN v ELSE f[x]]
 Log(rec) == hist' = Append(hist, rec)
 
@@ -80,16 +88,16 @@ Log(rec) == hist' = Append(hist, rec)
 Commit == /\ Idle /\ ncommits < MaxCommits
           /\ ncommits' = ncommits + 1
           /\ head' = ncommits + 1
-          /\ dirty' = IF dirty = "ignored" THEN "ignored" ELSE "clean"
+          /\ dirty' = WtAfterCommit(dirty)       \* `git add -A; git commit`: only ignored paths stay behind
           /\ Log([op |-> "commit"])
           /\ UNCHANGED <<tags, version, pc, run, brs>>
 
-Checkout(c) == /\ Idle /\ c \in 1..ncommits /\ c # head /\ Clean(dirty)
+Checkout(c) == /\ Idle /\ Deep /\ c \in 1..ncommits /\ c # head /\ Clean(dirty)
                /\ head' = c
                /\ Log([op |-> "checkout", c |-> c])
                /\ UNCHANGED <<tags, ncommits, dirty, version, pc, run, brs>>
 
-UserTag(n, k) == /\ Idle /\ n \notin DOMAIN tags
+UserTag(n, k) == /\ Idle /\ n \notin DOMAIN tags /\ (Deep \/ k = "light")
                  /\ k = "tree" => n \in TreeNames          \* `git tag n HEAD^{tree}`: c = 0, no commit behind the ref
                  /\ tags' = Extend(tags, n, [c |-> IF k = "tree" THEN 0 ELSE head, k |-> k, s |-> ""])
                  /\ Log([op |-> "usertag", name |-> n, kind |-> k])
@@ -99,7 +107,7 @@ UserTag(n, k) == /\ Idle /\ n \notin DOMAIN tags
 \* from a release tag (`git tag v3 v3.0.1`), and ANY name made from the major tag (`git tag latest v3`,
 \* `git tag v3.0.1 v3; git tag v3.1.0 v3`: version-named refs whose tag object says "v3").
 IsMajorName(x) == \E r \in DOMAIN ReqTable : ReqTable[r].valid /\ ReqTable[r].majorname = x
-Alias(n, m) == /\ Idle /\ n \notin DOMAIN tags /\ m \in DOMAIN tags /\ tags[m].k = "annotated"
+Alias(n, m) == /\ Idle /\ Deep /\ n \notin DOMAIN tags /\ m \in DOMAIN tags /\ tags[m].k = "annotated"
                /\ IsMajorName(n) \/ IsMajorName(m)
                /\ tags' = Extend(tags, n, [c |-> tags[m].c, k |-> "annotated",
                                             s |-> IF tags[m].s = "" THEN m ELSE tags[m].s])   \* name inside the shared object
@@ -109,14 +117,18 @@ Alias(n, m) == /\ Idle /\ n \notin DOMAIN tags /\ m \in DOMAIN tags /\ tags[m].k
 \* `git branch v3`, `git checkout -b v3`, `git update-ref refs/remotes/origin/v3 HEAD`: the ref namespace now holds
 \* a non-tag ref with the short name of a tag.  Nothing in the contract or in the code under test depends on it
 \* (tags are looked up under refs/tags/ only); it is part of "everything else", which must stay as it is.
-Branch(n, w) == /\ Idle /\ <<n, w>> \in BranchChoices /\ n \notin DOMAIN brs /\ Clean(dirty)
+Branch(n, w) == /\ Idle /\ Deep /\ <<n, w>> \in BranchChoices /\ n \notin DOMAIN brs /\ Clean(dirty)
                 /\ brs' = Extend(brs, n, w)
                 /\ Log([op |-> "branch", name |-> n, where |-> w])
                 /\ UNCHANGED <<tags, head, ncommits, dirty, version, pc, run>>
 
 Touch(d) == /\ Idle /\ dirty = "clean"
+            /\ d \in DeepDirtyKinds \/ Len(hist) = 0
             /\ dirty' = d
-            /\ Log([op |-> "touch", kind |-> d])
+            \* the work-tree state (entries per path), the status git must print for it, its observation class and
+            \* whether git calls it clean are exported with the step; the harness only concretises the entries
+            /\ Log([op |-> "touch", kind |-> d, class |-> WtClass(d), clean |-> Clean(d),
+                    paths |-> WtPaths(d), status |-> WtStatus(d), base |-> WtBase])
             /\ UNCHANGED <<tags, head, ncommits, version, pc, run, brs>>
 
 Bump(v) == /\ Idle /\ v # version
@@ -185,7 +197,10 @@ RunExit ==
   /\ pc' = "idle"
   /\ run' = NoRun
   /\ Log([op |-> "run", flag |-> run.flag,
-          pre |-> [tags |-> run.pre.tags, head |-> run.pre.head, dirty |-> run.pre.dirty],
+          pre |-> [tags |-> run.pre.tags, head |-> run.pre.head, dirty |-> WtClass(run.pre.dirty)],
+          wt |-> run.pre.dirty,                                        \* the work-tree state (kind) behind the class
+          clean |-> Clean(run.pre.dirty),                              \* git's definition, computed in TaggerWorktree
+          newer |-> StrictlyNewer(run.pre.tags, run.pre.version),      \* the version gate alone
           permitted |-> Permitted(run.pre, run.flag),
           gates |-> GatesPass(run.pre),
           same |-> SameMajorFull(run.pre),                              \* the tags the version gate is about
@@ -239,6 +254,7 @@ TypeOK == /\ DOMAIN tags \subseteq DOMAIN NameTable
           /\ head \in 1..ncommits
           /\ pc \in {"idle", "full", "major", "exit"}
           /\ TagNames \subseteq DOMAIN NameTable
+          /\ DirtyKinds \subseteq WtNames /\ dirty \in WtNames
           /\ \A r \in Requests : r \in DOMAIN ReqTable /\
                (ReqTable[r].valid => {ReqTable[r].fullname, ReqTable[r].majorname} \subseteq DOMAIN NameTable)
 
@@ -255,6 +271,9 @@ Emit ==
   IF Len(hist) = 0
   THEN IF pc = "idle" /\ version = CHOOSE r \in Requests : TRUE
        THEN PrintT(<<"TABLE", ToJson([names |-> NameTable, reqs |-> ReqTable,
+                                      wt |-> [base |-> WtBase, used |-> DirtyKinds,
+                                              kinds |-> [d \in WtNames |-> [status |-> WtStatus(d), class |-> WtClass(d),
+                                                                            clean |-> Clean(d), aftercommit |-> WtAfterCommit(d)]]],
                                       less |-> {<<a, b>> \in Names \X Names :
                                                   NameTable[a].parsable /\ NameTable[b].parsable /\ VLess(NameTable[a], NameTable[b])},
                                       reqless |-> {<<r, n>> \in Reqs \X Names :
